@@ -197,7 +197,17 @@ func (fx *FuncCtx) memberGoal(st *State, fams []famInst, rid, addr Term, extra [
 			continue
 		}
 		cands := fx.witnessCands(st, append(append([]Term{}, extra...), rel))
-		for _, ws := range tuples(cands, len(f.vars), 150) {
+		// reversed traversal: hi-1-e (+lo) for the explicit hints
+		for i := range f.vars {
+			if len(f.vars) == 1 || !mentionsAnyVar(f.hi[i], f.vars) {
+				for _, e := range extra {
+					if len(e.S) < 120 {
+						cands = append(cands, Sub(Sub(Add(f.hi[i], f.lo[i]), IntLit(1)), e))
+					}
+				}
+			}
+		}
+		for _, ws := range tuples(cands, len(f.vars), 200) {
 			inr, idx := f.at(ws)
 			alts = append(alts, And(same, inr, Eq(rel, idx)))
 		}
@@ -468,4 +478,13 @@ func (fx *FuncCtx) noteReadRange(st *State, sv SliceV, lo, n Term, node ast.Node
 	s2 := st.clone()
 	s2.assume(And(Le(lo, k), Lt(k, Add(lo, n))))
 	fx.checkPoison(s2, sv, k, node)
+}
+
+func mentionsAnyVar(t Term, vars []Term) bool {
+	for _, v := range vars {
+		if replaceSym(t.S, v.S, "") != t.S {
+			return true
+		}
+	}
+	return false
 }
